@@ -213,6 +213,7 @@ func (t *Tree) newNode(bit uint64) node {
 			t.buffer.AllocateOffset(reqSize - len(t.data))
 			t.data = t.buffer.Bytes()
 		}
+		verifTreeNewNode(t)
 	}
 	n := t.node(pageId)
 	if t.freePage > 0 {
